@@ -208,16 +208,9 @@ func (a *pwaligner) fillMatrix_SW() (err error) {
 			a.trace[0][j] = ALIGN_DIAG // TO REVIEW
 		}
 
-		if j > 0 {
-			a.maxa[j] = a.matrix[0][j]
-			if a.trace[0][j-1] == ALIGN_LEFT {
-				a.maxa[j] += a.gapextend
-			} else {
-				a.maxa[j] += a.gapopen
-			}
-		} else {
-			a.maxa[j] = a.matrix[0][j] + a.gapopen
-		}
+		// Best score of a gap in seq2 (ALIGN_UP) below this cell: such a gap
+		// is always opened here, whatever the trace of the first row
+		a.maxa[j] = a.matrix[0][j] + a.gapopen
 		// The best score may be in the first row
 		if a.matrix[0][j] > a.maxscore {
 			a.maxscore = a.matrix[0][j]
